@@ -142,7 +142,7 @@ func (p C02) Run(c *sim.Ctx, t *sim.Tape) sim.RunResult {
 
 	do := func(o fsx.Op) bool {
 		if filtered && len(opPathsOf(o)) > 0 && w.avoided(c, "C02", o) {
-			o = fsx.Op{K: "Lstat", P: o.P}
+			o = insteadOf(o)
 		}
 
 		out := w.step(c, "C02", i, o, w.env, 0, 0, 0o022)
